@@ -107,7 +107,7 @@ def pool_process(cmd_r, res_w, pool_factory, pipes, my_index):
 
 class P(Prop):
     id = "C20"
-    quick_n = 260
+    quick_n = 600
     thorough_n = 2500
     case_timeout = 12.0
     rule = ("TmpPool: a history of create / remove (also of an already removed or externally deleted file) / flush / "
